@@ -213,7 +213,7 @@ impl Monitor for C11 {
         "C11"
     }
     fn plan(&self, cfg: &Cfg) -> u64 {
-        (9 * ns(cfg).len() * CLASSES.len()) as u64 * cfg.tier.pick(2, 4)
+        (9 * ns(cfg).len() * CLASSES.len()) as u64 * cfg.tier.pick(2, 12)
     }
     fn trial(&self, cfg: &Cfg, idx: u64, out: &mut TrialOut) {
         let nl = ns(cfg);
